@@ -176,12 +176,60 @@ def route : MOp → Option Op
   | .wm .other _ => none
   | .wm _ w => some (.wm w)
 
-/-- what the result handler receives during each manager call -/
-def mgrTrace (P : Params) (s : St) : List MOp → List (List (Ev × Ev))
+/-- `process_event` / `update_watermark` of the manager as seen by ONE registered join whose
+routing is `rt` (`none`: the call's stream is not an input of this join, the node is not touched
+and its handler receives nothing). -/
+def routedTrace {M : Type} (rt : M → Option Op) (P : Params) (s : St) : List M → List (List (Ev × Ev))
   | [] => []
   | m :: ms =>
-    match route m with
-    | some op => (step P s op).2 :: mgrTrace P (step P s op).1 ms
-    | none => [] :: mgrTrace P s ms
+    match rt m with
+    | some op => (step P s op).2 :: routedTrace rt P (step P s op).1 ms
+    | none => [] :: routedTrace rt P s ms
+
+/-- what the result handler receives during each manager call (one registered join) -/
+def mgrTrace (P : Params) (s : St) (ms : List MOp) : List (List (Ev × Ev)) := routedTrace route P s ms
+
+/-! ### `StreamJoinManager` with several registered joins
+
+`register_join` appends the join id to `stream_to_joins[left_stream]` and to
+`stream_to_joins[right_stream]`; `process_event` walks `stream_to_joins[source]` in registration
+order and, **per join**, calls `process_left` when `join.left_stream == source`, otherwise
+`process_right`; `update_watermark(stream, w)` calls `update_watermark(w)` on every join of
+`stream_to_joins[stream]`. Every join has its own node (state) and its own result handler.
+Assumptions (the harness generates nothing else): join ids are pairwise distinct and no join has
+`left_stream == right_stream` (such a join would be listed twice under its stream). -/
+
+/-- one registered join: its two input streams (names as numbers) and its parameters -/
+structure JoinDef where
+  l : Nat
+  r : Nat
+  P : Params
+
+/-- a call on the manager: `process_event` of an event whose `metadata.source` is `stream`, or
+`update_watermark(stream, w)` -/
+inductive JOp where
+  | ev (stream : Nat) (e : Ev)
+  | wm (stream : Nat) (w : Int)
+deriving Repr, DecidableEq
+
+/-- the routing decision of `process_event` / `update_watermark` for the join with input streams
+`l`, `r`: membership in `stream_to_joins[stream]`, then `left_stream == stream` picks the side -/
+def routeJ (l r : Nat) : JOp → Option Op
+  | .ev s e => if l = s then some (.left e) else if r = s then some (.right e) else none
+  | .wm s w => if l = s ∨ r = s then some (.wm w) else none
+
+/-- one manager call as seen by one join: new node state and what its handler receives -/
+def stepJ (j : JoinDef) (s : St) (m : JOp) : St × List (Ev × Ev) :=
+  match routeJ j.l j.r m with
+  | some op => step j.P s op
+  | none => (s, [])
+
+/-- the manager's loop: per call (outer list), per registered join in registration order (inner
+list), the joined events handed to that join's result handler -/
+def multiTrace : List (JoinDef × St) → List JOp → List (List (List (Ev × Ev)))
+  | _, [] => []
+  | jss, m :: ms =>
+    jss.map (fun js => (stepJ js.1 js.2 m).2) ::
+      multiTrace (jss.map (fun js => (js.1, (stepJ js.1 js.2 m).1))) ms
 
 end C14
